@@ -41,6 +41,9 @@ CHECKS = {
     "C09": ("pbt-values", "generated (point unit pair, rep pair) instances incl. units with rational scale and origin; enumerated +-2^15 windows around 0 and around each origin plus rapidcheck draws vs the exact rational affine map (128-bit), gated by representability with a two-bit margin; comparisons, point differences and shifts vs exact positions; 17 negative compile probes with positive twins",
             "Exploration: exact equality on millions of values per run for integral reps (explicit ulp tolerances for floating reps), enumerated negative probes for every operation without affine meaning.",
             "assertions only where result and model intermediates are representable (the statement's proviso); comparison checks only on instances the policy model admits", "4/C09"),
+    "C11": ("pbt-programs", "Hypothesis-generated magnitudes (primes up to 2^64-59, exponents straddling every integer and floating limit, roots, pi) built through the library's operators; static_assert of representable_in/get_value against exact integers and 30-digit mpmath bounds, canonical-type identity, classification and split functions as spelled types, equality via two routes; negative compile probes (with twins) for get_value on non-representable magnitudes",
+            "Exploration: enumerated limit grid for all 11 types plus random magnitudes; the bands next to the floating limits and magnitudes whose partial products leave long double's range are only required to be refused cleanly or be correct.",
+            "trusts Fractions/mpmath and compile-time evaluation by the compilers", "4/C11"),
 }
 ENGINES = [
     {"name": "pbt-programs", "path": "auverif/hyp.py", "kind_free_text": "Hypothesis-generated translation units judged by compiler verdict / static_assert / program output against an independent Python model",
